@@ -74,10 +74,14 @@ func ParsePortionSpecific(input string) (*Portion, error) {
 		if len(fractionMatch) != 0 {
 			numerator := fractionMatch[1]
 			denominator := fractionMatch[2]
-			res, ok = new(big.Rat).SetString(numerator + "/" + denominator)
-			if !ok {
+			// both numbers are decimal: big.Rat.SetString reads the two parts of an "a/b" text
+			// with base 0, i.e. a leading zero as an octal prefix (010/100 became 8/100)
+			num, okNum := new(big.Int).SetString(numerator, 10)
+			den, okDen := new(big.Int).SetString(denominator, 10)
+			if !okNum || !okDen || den.Sign() == 0 {
 				return nil, errors.New("invalid fractional format")
 			}
+			res = new(big.Rat).SetFrac(num, den)
 		}
 	}
 	if res == nil {
